@@ -48,7 +48,7 @@ def mc_module(name, unsafe, two):
     L.append('Control == <<Plug("plugin:VLazy"), Plug("plugin:VPool"), Plug("plugin:VCtrl")>>')
     one = '\\E k \\in MCBad, t \\in MCTargets, p \\in Positions, s \\in {"map", "seq", "scalar"} : (k \\notin Named => t = "sentinel") /\\ InitWith(Doc(BadNode(k, t, p, s)))'
     L.append("MCInit == InitWith(Control) \\/ (" + one + ")" + (
-        ' \\/ (\\E k1 \\in {"pyapply", "unregistered"}, k2 \\in MCBad, t \\in MCTargets, p1 \\in {"lazy_arg", "logging"}, p2 \\in Positions : (k2 \\notin Named => t = "sentinel") /\\ InitWith(<<BadNode(k1, "sentinel", p1, "seq"), BadNode(k2, t, p2, "map")>>))' if two else ""))
+        ' \\/ (\\E k1 \\in {"pyapply", "unregistered"}, k2 \\in MCBad, t \\in MCTargets, p1 \\in {"lazy_arg", "logging"}, p2 \\in Positions : (k2 \\notin Named => t = "sentinel") /\\ InitWith(<<BadNode(k1, "sentinel", p1, "seq")>> \\o Doc(BadNode(k2, t, p2, "map"))))' if two else ""))
     L.append("MCSpec == MCInit /\\ [][Next]_vars")
     L.append('EmitInit == (i # 1 \\/ outcome # "loading") \\/ PrintT(<<"INIT", ToJson(doc)>>)')
     L.append("====")
